@@ -187,6 +187,62 @@ def sliding_window(m: Machine) -> Optional[str]:
     return None
 
 
+def rotated_sliding_window(m: Machine, rec, first_window_tested: bool = True) -> Optional[str]:
+    """The same scanner with the acceptance test moved behind the step:
+
+        w = read(len(tag)); if w == tag: return
+        loop: b = read(1); if b is empty: raise (or break to an unconditional raise); w = w[1:] + b; if w == tag: return
+
+    It performs the same reads and stops at the same point as the sliding window.  None if the machine has this shape."""
+    if len(m.state) != 1:
+        return f"state variables {m.state}"
+    w = m.state[0]
+    W = m.invar[w]
+    ln = T("call", (T("builtin", ("len",)), (m.tag,), ()))
+    if m.prime is None or m.init[w] != m.prime or m.prime.a[1] != (ln,):
+        return "the window does not start as read(len(tag))"
+    lp = rec.loops[m.lid]
+    step = T("bin", ("+", T("slice", (W, const(1), sym.NONE)), m.read1))
+    stp = m.step[w]
+    if stp.op == "ite" and _is_empty_read(stp.a[0], True, m.read1) and stp.a[1] == W:
+        stp = stp.a[2]          # the value joined in from the break on an empty read
+    if stp != step:
+        return "the window is not advanced as window[1:] + read(1)"
+    if m.test is not None and sym.truth(m.test) is not True:
+        return "the loop has a test"
+    base = [(c, p) for c, p in m.read_pc]
+    early = [r for r in rec.returns if r.kind == "return" and not r.loops and r.seq < lp.body_seq[0]]
+    if first_window_tested:
+        if len(base) != 1 or _is_eq(base[0][0], m.prime, m.tag) is not (not base[0][1]):
+            return "the loop is not entered exactly when the first window differs from the tag"
+        if len(early) != 1 or len(early[0].pc) != 1 or _is_eq(early[0].pc[0][0], m.prime, m.tag) is not early[0].pc[0][1]:
+            return "no return before the loop when the first window is the tag"
+    elif base or early:
+        return "conditions before the loop"
+    if m.pre_exits:
+        return "exits before the per-iteration read"
+
+    def own(pc):
+        return [(c, p) for c, p in pc if (c, p) not in base]
+    empties, accepts = [], []
+    for kind, pc, raised in m.post_exits:
+        cs = own(pc)
+        if len(cs) == 1 and _is_empty_read(cs[0][0], cs[0][1], m.read1) and kind in ("raise", "break"):
+            empties.append(kind)
+        elif len(cs) == 2 and kind == "return" and _is_empty_read(cs[0][0], not cs[0][1], m.read1) \
+                and _is_eq(cs[1][0], step, m.tag) is cs[1][1]:
+            accepts.append(kind)
+        else:
+            return "an exit other than raise-on-empty-read / return-on-match"
+    if len(empties) != 1 or len(accepts) != 1:
+        return "not exactly one end-of-stream exit and one match exit"
+    if empties[0] == "break":
+        later = [r for r in rec.returns if not r.loops and r.seq > lp.body_seq[1]]
+        if len(later) != 1 or later[0].kind != "raise" or own(later[0].pc):
+            return "leaving the loop at the end of the stream does not raise unconditionally"
+    return None
+
+
 # ------------------------------------------------------------------ 2. automaton equivalence
 class _Crash(Exception):
     pass
@@ -454,10 +510,17 @@ def equivalent(m: Machine, tag: bytes, limit: int = 400_000) -> Verdict:
 
 def decide(interp: sym.Interp, mod, fn, tags: Dict[str, bytes]) -> Dict[str, Verdict]:
     """name -> Verdict for every tag; raises Undecided when the scanner is outside both families."""
-    m, _ = extract(interp, mod, fn)
+    m, rec = extract(interp, mod, fn)
     why = sliding_window(m)
     if why is None:
         return {nm: Verdict(True, "sliding-window theorem") for nm in tags}
+    if rotated_sliding_window(m, rec) is None:
+        return {nm: Verdict(True, "sliding-window theorem (acceptance tested after each step)") for nm in tags}
+    if rotated_sliding_window(m, rec, first_window_tested=False) is None:
+        # the same scanner without the test of the first window: a tag that starts right at the scan position is skipped
+        return {nm: Verdict(False, "sliding-window theorem (acceptance tested after each step)", tag.hex(),
+                            "never compares the first len(tag) bytes with the tag: an occurrence right at the scan position is "
+                            "passed over") for nm, tag in tags.items()}
     out = {}
     for nm, tag in tags.items():
         try:
